@@ -86,3 +86,34 @@ Fixpoint dispatch (chain : list step) (asg : bool) (sets : list (list text)) (li
     | StTail => ([], HTail)
     end
   end.
+
+(* ---------------------------------------------------------------- comparing chains (for the pinned order) *)
+Definition opt_nat_eqb (a b : option nat) : bool :=
+  match a, b with Some x, Some y => Nat.eqb x y | None, None => true | _, _ => false end.
+Fixpoint imports_eqb (a b : list (Z * rx)) : bool :=
+  match a, b with
+  | [], [] => true
+  | (i, r) :: a', (j, q) :: b' => (i =? j) && rx_eqb r q && imports_eqb a' b'
+  | _, _ => false
+  end.
+Definition step_eqb (a b : step) : bool :=
+  match a, b with
+  | StImports x, StImports y => imports_eqb x y
+  | StEq x, StEq y => text_eqb x y
+  | StPrefix x, StPrefix y => text_eqb x y
+  | StRx i r g, StRx j q h => (i =? j) && rx_eqb r q && opt_nat_eqb g h
+  | StSearch i r, StSearch j q => (i =? j) && rx_eqb r q
+  | StAssign, StAssign => true
+  | StTail, StTail => true
+  | _, _ => false
+  end.
+Fixpoint chain_eqb (a b : list step) : bool :=
+  match a, b with
+  | [], [] => true
+  | x :: a', y :: b' => step_eqb x y && chain_eqb a' b'
+  | _, _ => false
+  end.
+
+(* the pattern of an id in a table *)
+Fixpoint rx_of (tbl : list (Z * rx)) (id : Z) : rx :=
+  match tbl with [] => RNil | (i, r) :: q => if i =? id then r else rx_of q id end.
